@@ -102,7 +102,7 @@ def parse_iso(text):
     if m2:
         cy, w = int(m2.group(1)), int(m2.group(2))
         wd = int(m2.group(3)) if m2.group(3) else 1
-        if not (1 <= cy <= 9999 and w >= 1 and 1 <= wd <= 7):
+        if not (1 <= cy <= 9999 and w >= 0 and 0 <= wd <= 7):
             return None
         jan4 = om(12 * cy) + 3
         monday1 = jan4 - weekday0(jan4)
